@@ -357,6 +357,21 @@ def oracles(seed, n, tol=1e-9):
     return cnt, fails
 
 
+def replay_trace(job):
+    """uncoated lens from a stored prescription: worst intensity error / transversality error over the rays"""
+    import lensgen
+    from optiland.rays import PolarizationState
+    o = lensgen.build(job['spec'])
+    st = PolarizationState(True, *job['raw'])
+    o.set_polarization(st)
+    rays = o.trace(job['Hx'], job['Hy'], o.primary_wavelength, num_rays=job['num_rays'], distribution=job['distribution'])
+    E1 = rays.get_output_field(rays._get_3d_electric_field(st))
+    k = np.array([rays.L, rays.M, rays.N]).T
+    ok = np.isfinite(rays.i) & np.all(np.isfinite(k), axis=1)
+    return {'n': int(ok.sum()), 'max_int_err': float(np.max(np.abs(rays.i[ok] - 1.0))) if ok.any() else 0.0,
+            'max_Edotk': float(np.max(np.abs(np.sum(E1[ok] * k[ok], axis=1)))) if ok.any() else 0.0}
+
+
 def main():
     job = json.load(open(sys.argv[1]))
     sys.path.insert(0, job['tools'])
@@ -378,6 +393,8 @@ def main():
         M = jm(J.JonesLinearDiattenuator(job['t_min'], job['t_max'], job['theta']))
         S = rot(job['theta']) @ np.diag([job['t_max'], job['t_min'], 1.0]) @ rot(-job['theta'])
         res['replay_diattenuator'] = {'impl': cflat(M), 'spec': cflat(S)}
+    if 'replay_trace' in job['what']:
+        res['replay_trace'] = replay_trace(job)
     json.dump(res, open(sys.argv[2], 'w'))
 
 
